@@ -91,6 +91,9 @@ ENTRIES: Dict[str, dict] = {
     "rotationLink": dict(mod="optimize.links", cls="RotationLink", fn="__init__",
                          atoms={"self._get_radius(self.leader)": ("vvar", "leader radius vector")}),
     "elbowChain": dict(mod="construct.shapes.elbow", cls="Elbow", fn="chain"),
+    # round 6b: two guarded entry points that were outside the catalogue
+    "arcTheta": dict(mod="items.edges.arcs.angle", cls=None, fn="arc_from_theta", atoms={"np.pi * 2": ("var", "np.pi * 2")}),
+    "edgeVertices": dict(mod="items.edges.edge", cls="Edge", fn="__post_init__"),
     # the state machines: the guards of their steps
     "meshGrade": dict(mod="mesh", cls="Mesh", fn="grade"),
     "meshBackport": dict(mod="mesh", cls="Mesh", fn="backport"),
